@@ -1,7 +1,7 @@
 (* C05 - Triangle evaluation equals the bivariate Bernstein definition. Statements only. *)
 From Coq Require Import List Arith ZArith QArith Qcanon Reals.
 From BZ Require Import Base.Ops Base.QcInst Model.Curve Model.Triangle Model.TrianglePy
-  Theory.CurveEval Theory.CurveEvalExtra Theory.TriEval Theory.TriEdges Base.RInst Gen.PyCurveHelpers Theory.CurveTables Theory.Rounding Theory.TriRound Theory.TriCorners.
+  Theory.CurveEval Theory.CurveEvalExtra Theory.TriEval Theory.TriEdges Base.RInst Gen.PyCurveHelpers Theory.CurveTables Theory.Rounding Theory.TriRound Theory.TriCorners Theory.Binary64.
 Import ListNotations.
 
 (* evaluate_barycentric (row-wise curve evaluation, running binomial, Horner in lambda3) equals
@@ -91,6 +91,14 @@ Proof.
                   running_binomial_exact_below_switch Hb Hd Hv)).
 Qed.
 Print Assumptions C05_rounding_error_bound_cartesian.
+
+(* ... instantiated at correctly rounded 53-bit arithmetic with unbounded exponent (Flocq FLX, u = 2^-53) *)
+Theorem C05_rounding_error_bound_binary64 :
+  forall (d : nat) (v : list R) (l1 l2 l3 : R), tri_binom_exact_double d = true -> (Z.of_nat d + 1 < 2 ^ 53)%Z -> length v = tri_size d ->
+  (Rabs (tri_eval (FlOps fl64) vs_max_nodes d v l1 l2 l3 - tri_bernstein ROps d v l1 l2 l3)
+   <= ((1 + u64) ^ (2 * d + 4) - 1) * tri_bernstein ROps d (map Rabs v) (Rabs l1) (Rabs l2) (Rabs l3))%R.
+Proof. exact triangle_rounding_binary64. Qed.
+Print Assumptions C05_rounding_error_bound_binary64.
 
 Example C05_example :
   Qc_eqb (tri_evaluate_barycentric_py 2 (qcs [0; 1; 2; 0; 1; 4]%Q) (Q2Qc (1#4)) (Q2Qc (1#4)) (Q2Qc (1#2))) (Q2Qc (3#2)) = true.
